@@ -4,10 +4,23 @@ import (
 	"fmt"
 
 	"verif/harness"
+	"verif/sim"
 	"verif/unit"
 )
 
 func init() {
+	// behavioural half of C06: the quorum test as the protocol applies it (cached thresholds, id lists built by callers) —
+	// every COMMIT a correct node sends and every view it announces rests on a set the reference weighs at W-f or more
+	unit.C06Extra = func(run *harness.Run) ([]harness.Finding, map[string]interface{}, []string) {
+		p := advProfile(map[string]int{"barePP": 0, "equivocate": 10, "support": 30, "vcGames": 15, "mutate": 10}, 450, 2)(run.Thorough())
+		p.MinN, p.MaxN = 4, 9
+		fs, ev := sim.RunWorkloadFor(run, "C06", "c06", p, run.Pick(3000, 60000), []string{"C06 quorum decisions of the protocol judged", "commits"})
+		var inc []string
+		if j := ev["sim_events_judged"].(map[string]int); j["C06 quorum decisions of the protocol judged"] < 3000 {
+			inc = append(inc, "floor missed: fewer than 3000 quorum decisions of the protocol judged")
+		}
+		return fs, ev, inc
+	}
 	registry["C06"] = unit.CheckC06
 	registry["C19"] = func(run *harness.Run) int {
 		fs, ev := unit.CheckC19Unit(run)
